@@ -182,6 +182,35 @@ def scoping_histories():
     return out
 
 
+def after_derivation_histories():
+    """fixed programs: one identifier carried by records of several kinds, inserted in an order that is not the
+    alphabetical order of the kinds (and with a second record of the first kind at the end), in a document and in a
+    bundle; then each call that walks the index (unified, flattened, graph and text exports, update into another
+    document) — the probe that follows every call compares get_record with the record list element by element"""
+    EXU = "http://example.org/"
+    out = []
+    orders = [("Entity", "Agent", "Activity"), ("Entity", "Activity", "Agent", "Entity"), ("Agent", "Activity", "Agent"),
+              ("Usage", "Entity", "Generation", "Activity")]
+    walkers = [["Unified", "0"], ["ToGraph", "0"], ["GraphRoundTrip", "0"], ["Flattened", "0"], ["ExportJson", "0"],
+               ["ExportProvn", "0"]]
+    for in_bundle in (False, True):
+        for kinds in orders:
+            p = [["NewDoc"], ["AddNs", ["d", "0"], "ex", EXU]]
+            c = ["d", "0"]
+            if in_bundle:
+                p.append(["NewBundle", "0", ["S", "ex:b"]])
+                c = ["b", "0", "0"]
+            for i, k in enumerate(kinds):
+                p.append(["NewRecord", c, k, ["S", "ex:bob"], [[["S", "ex:n"], ["int", str(i)]]]])
+                p.append(["NewRecord", c, "Entity", ["S", "ex:other%d" % i], []])
+            for w in walkers:
+                p += [w, ["GetRecord", c, ["S", "ex:bob"]]]
+            p += [["NewDoc"], ["Update", ["d", "1"], ["d", "0"]], ["GetRecord", c, ["S", "ex:bob"]],
+                  ["NewRecord", c, "Activity", ["S", "ex:bob"], []], ["Unified", "0"], ["GetRecord", c, ["S", "ex:bob"]]]
+            out.append(p)
+    return out
+
+
 def run(tier, seed, log, model_runs=True, enlarged=False):
     return worldprop.run(PROP, tier, seed, log, model_runs, enlarged, C18Oracle, ["merge", "mixed", "records"],
                          n_quick=150, n_thorough=2500, classify=classify, nontrivial=nontrivial,
@@ -191,9 +220,9 @@ def run(tier, seed, log, model_runs=True, enlarged=False):
                                    "spelling that denotes the identifier, an absent identifier, identifiers held only by sibling containers "
                                    "(the enclosing document, other bundles), get_records for every class "
                                    "and abstract base, records-is-a-copy; plus 16 fixed scoping histories (a bundle resolving through its document, then getting its "
-                                   "own default namespace by set_default_namespace / update / a prefix-less name); "
+                                   "own default namespace by set_default_namespace / update / a prefix-less name) and 8 histories with one identifier on records of several kinds followed by every call that walks the index; "
                                    "non-trivial = >=3 record-inserting calls",
-                         extra_cases=scoping_histories(),
+                         extra_cases=scoping_histories() + after_derivation_histories(),
                          theorem_note="C18_* over World.add_rec_to / Interp.step")
 
 
